@@ -4,6 +4,7 @@ import torch.nn as nn
 
 from ..model import Model
 from ..fcn import _construct_FC_layers
+from .trunknets import _check_output_neurons
 from ...problem.domains.functionsets.functionset import FunctionSet
 from ...utils.user_fun import UserFunction
 from ...problem.spaces.points import Points
@@ -41,16 +42,17 @@ class BranchNet(Model):
         output_space : Space
             The space in which the final output of the DeepONet will belong to.
         output_neurons : int
-            The number of output neurons. Will be multiplied my the dimension of the
-            output space, so each dimension will have the same number of
-            intermediate neurons.
+            The number of output neurons. Has to be a multiple of the dimension of
+            the output space, each dimension gets the same number
+            (output_neurons / dimension) of intermediate neurons.
         """
+        _check_output_neurons(output_space, output_neurons)
         self.output_neurons = output_neurons
         self.output_space = output_space
 
     def _reshape_multidimensional_output(self, output):
         return output.reshape(
-            -1, self.output_space.dim, int(self.output_neurons / self.output_space.dim)
+            -1, self.output_space.dim, self.output_neurons // self.output_space.dim
         )
 
     @abc.abstractmethod
